@@ -290,6 +290,8 @@ impl PhoneticSuggestion {
 
                         // Save this for future reuse.
                         selections.insert(string.word().to_string(), selected.to_string());
+                        // One match is enough, another one would be appended to this one.
+                        break;
                     }
                 }
             }
